@@ -92,3 +92,30 @@ Example resume_sound_nonvacuous :
   l_ranges (fst (load 8 10%Z fs (opened 8 2) r)) = [false; false; true; false; true; true; true; true] /\
   check (fst (load 8 10%Z fs (opened 8 2) r)) valid = valid.
 Proof. vm_compute. repeat split; reflexivity. Qed.
+
+(* resume_sound with the loss subset and the perturbations quantified explicitly: for EVERY subset [lost]
+   of the pieces named by the saved uncertain list and EVERY set of touched files whose keep-test fails
+   (size or mtime changed, not saved ~3), every bit set after load + check is valid on the perturbed disk
+   (valid_after = valid before /\ not lost /\ under no touched file). *)
+Theorem resume_sound_loss : forall n ld fs ms bits_s flags0 u ts r valid_before lost touched,
+  r_map r = true -> r_files r = Some (map (fun m => FMap (MVal m)) ms) -> length ms = length fs ->
+  r_unc r = Some u -> r_unc_ts r = Some ts -> (ts < ld)%Z ->
+  load_bitfield n (opened n (length fs)) (r_bits r) = Some (mkL (Some bits_s) (repeat false n) flags0) ->
+  snd (load n ld fs (opened n (length fs)) r) = Loaded ->
+  (forall i, i < n -> nth i bits_s false = true -> nth i valid_before false = true) ->
+  incl lost (unc_indices u (length u)) ->
+  (forall k f m, nth_error fs k = Some f -> nth_error ms k = Some m -> touched k = true -> fi_pad f = false -> ~ kept f m) ->
+  let valid := valid_after n fs valid_before lost touched in
+  forall i, i < n ->
+    nth i (check (fst (load n ld fs (opened n (length fs)) r)) valid) false = true -> nth i valid false = true.
+Proof. exact ProofsSound.resume_sound_loss. Qed.
+Print Assumptions resume_sound_loss.
+
+Example resume_sound_loss_nonvacuous :
+  let fs := [mkFI 0 4 false 8192%N (Some (8192%N, 500%Z)); mkFI 4 8 false 8192%N (Some (8192%N, 507%Z))] in
+  let r := mkR true (Some [FMap (MVal 500%Z); FMap (MVal 500%Z)]) (BVal 8) (Some [0;0;0;2]%N) (Some 5%Z) in
+  let touched := fun k => Nat.eqb k 1 in
+  valid_after 8 fs (repeat true 8) [2] touched = [true; true; false; true; false; false; false; false] /\
+  check (fst (load 8 10%Z fs (opened 8 2) r)) (valid_after 8 fs (repeat true 8) [2] touched)
+  = valid_after 8 fs (repeat true 8) [2] touched.
+Proof. vm_compute. split; reflexivity. Qed.
